@@ -303,6 +303,39 @@ def conformance(jobs):
             elif len(drifts) < 5:
                 drifts.append({"cfg": job.cfg, "header": job.execs[i][0], "cmds": job.execs[i][1], "expected": exp,
                                "observed": seen.get(i, [])})
+    # Joint: outcome of every step and offsets of the live raw pieces (header key `jexpect`)
+    for job in jobs:
+        jx = {i: h["jexpect"].split("|") for i, (h, c) in enumerate(job.execs) if "jexpect" in h}
+        if not jx:
+            continue
+        seen, xn, last_pieces, ua_mis = {}, -1, "", 0
+        with open(job.trace) as f:
+            for ln in f:
+                if ln.startswith('{"e":"x"'):
+                    xn += 1
+                    last_pieces = ""
+                elif xn in jx and ln.startswith('{"e":"ua"'):
+                    e = json.loads(ln)
+                    ua_mis = e.get("m16", e["mis"])      # address of the block modulo 16
+                elif xn in jx and ln.startswith('{"e":"pieces"'):
+                    e = json.loads(ln)
+                    last_pieces = ",".join("%d@%d+%d" % (p[0] - 100, p[1], p[2]) for p in e["ps"] if 100 <= p[0] < 1000)
+                elif xn in jx and ln.startswith('{"e":"jctor"'):
+                    e = json.loads(ln)
+                    if e["osz"] != 104 or (ua_mis + e["off"]) % 16 != int(job.execs[xn][0].get("jres", 0)):
+                        seen.setdefault(xn, []).append("layout osz=%d residue=%d" % (e["osz"], (ua_mis + e["off"]) % 16))
+                elif xn in jx and ln.startswith('{"e":"op"'):
+                    e = json.loads(ln)
+                    if e["op"] in ("joint", "jraw", "jrawfree"):
+                        res = {"ok": "ok", "throw:out_of_fixed_memory": "oofm"}.get(e["r"], e["r"])
+                        seen.setdefault(xn, []).append(res + "=" + last_pieces)
+        for i, exp in jx.items():
+            checked += 1
+            if seen.get(i, []) == exp:
+                matched += 1
+            elif len(drifts) < 5:
+                drifts.append({"cfg": job.cfg, "header": job.execs[i][0], "cmds": job.execs[i][1], "expected": exp,
+                               "observed": seen.get(i, [])})
     return {"executions_with_model_prediction": checked, "matched": matched, "drift_samples": drifts}
 
 
